@@ -17,11 +17,11 @@ import (
 )
 
 type c13wCase struct {
-	Stack    StackCfg `json:"stack"`
-	Order    []int    `json:"order"`      // 0 = A's Acquire, 1 = A's cancellation
-	BAfterMs int      `json:"b_after_ms"` // B arrives that long after A
-	BBoundMs int      `json:"b_bound_ms"` // blocking: B is cancelled that long after its arrival (deadline kind: the deadline bounds B)
-	Yields   []uint8  `json:"yields"`
+	Stack    StackCfg  `json:"stack"`
+	Order    []int     `json:"order"`      // 0 = A's Acquire, 1 = A's cancellation
+	BAfterMs int       `json:"b_after_ms"` // B arrives that long after A
+	BBoundMs int       `json:"b_bound_ms"` // blocking: B is cancelled that long after its arrival (deadline kind: the deadline bounds B)
+	Yields   yieldList `json:"yields"`
 }
 
 func genC13W(t *rapid.T) c13wCase {
@@ -41,7 +41,7 @@ func genC13W(t *rapid.T) c13wCase {
 	c.Order = rapid.Permutation([]int{0, 1}).Draw(t, "order")
 	c.BAfterMs = rapid.SampledFrom([]int{0, 1, 5}).Draw(t, "bafter")
 	c.BBoundMs = rapid.SampledFrom([]int{1, 7, 20}).Draw(t, "bbound")
-	c.Yields = rapid.SliceOfN(rapid.SampledFrom([]uint8{0, 0, 1, 1, 2, 3}), 0, 16).Draw(t, "yields")
+	c.Yields = yieldList(rapid.SliceOfN(rapid.SampledFrom([]uint8{0, 0, 1, 1, 2, 3}), 0, 16).Draw(t, "yields"))
 	return c
 }
 
